@@ -4,6 +4,29 @@ from common import build, log
 LEVEL = "translation_validation"
 
 
+def included_twice():
+    """fixed sources (independent of the run's seed) in which a file of plain assignments is included twice in a row: its statements
+    are executed twice at the same file and line, so stepping must visit those lines twice"""
+    import random
+    import gen
+    out = []
+    seed = 0
+    while len(out) < 4 and seed < 400:
+        p = gen.gen_canon(7000 + seed, nfiles=2, calls=False, gotos=False, whiles=False, diverge=0.0)
+        if gen.include_twice(p, random.Random(seed)):
+            p["seed"] = "include-twice-%d" % len(out)
+            out.append(p)
+        seed += 1
+    # the smallest instance
+    out.append({"files": {"m": 'include "inc"\ninclude "inc"\ny := x\n', "inc": "x := x + 1;\n"}, "main": "m", "canon": True,
+                "seed": "include-twice-min",
+                "ast": {"routines": [], "mainvars": ["x", "y"], "structured": True, "loop_only": True, "canon": True, "main": [
+                    {"k": "assign", "x": "x", "v": {"k": "inc", "x": "x", "c": 1}, "labels": [], "file": "inc", "line": 1},
+                    {"k": "assign", "x": "x", "v": {"k": "inc", "x": "x", "c": 1}, "labels": [], "file": "inc", "line": 1},
+                    {"k": "assign", "x": "y", "v": {"k": "var", "x": "x"}, "labels": [], "file": "m", "line": 3}]}})
+    return out
+
+
 def run(chk):
     th = build("plain")
     n = 60000 if chk.thorough else 1500
@@ -14,6 +37,12 @@ def run(chk):
         chk.violation("c07:reject:seed%d" % p["seed"], "a generated well-formed source was rejected by the compiler: %s\n%s"
                       % (p["run"].get("errors"), p["files"]), {"files": p["files"], "main": p["main"], "errors": p["run"].get("errors")})
     acc, nev = sem.validate(chk, progs)
+    # a file included twice in a row (fixed instances, one TLC run each)
+    tw = included_twice()
+    sem.run_real(chk, th, tw)
+    acc2, nev2 = sem.validate(chk, tw, name="twice", batches=len(tw))
+    chk.cov["sources_with_a_file_included_twice_in_a_row"] = len(tw)
+    chk.cov["of_those_accepted"] = acc2
     # model leg: the ideal machine (no real VM) on the real bytecode of the same sources simulates TheoSem
     nref = sem.refine(chk, th, progs[::max(3, len(progs) // 6000)])
     chk.cov["programs_in_model_leg_TheoRefine"] = nref
